@@ -10,29 +10,39 @@ import (
 
 // cmdWorld: random nested histories with shadow values (used by C09, C10, C11 and as the state
 // generator of other checks).  After every operation: structural verifiers, content, health.
+//
+// Histories w<h> (h < n) are the general ones.  Histories wp<k> (k < n/3, or n with -mode pooled) are
+// "pooled collision" worlds (WorldOpts.PooledCollide, worldpool.go): every map uses the library's default
+// POOLED digester and a hash input provider that forces real first-level digest collisions, so nested
+// containers live under keys inside collision groups and are mutated through their retained handles.
+// Half of them run the whole oracle battery after every operation (incl. Has/Get on every colliding key),
+// the other half ("sparse") only at the commit points — ledger walk first — so that a lost parent update is
+// seen through its durable consequence and not only through the first keyed read.
 func init() {
-	register("world", func(a Args) { cmdWorld(a.Prop, a.Seed, a.N, a.Steps, a.Out) })
+	register("world", func(a Args) { cmdWorld(a.Prop, a.Seed, a.N, a.Steps, a.Out, a.Mode) })
 }
 
-func cmdWorld(prop string, seed uint64, n int, steps int, out string) {
+func cmdWorld(prop string, seed uint64, n int, steps int, out string, mode string) {
 	rep := NewReport(prop, seed)
-	rep.Rule = "random nested histories (arrays/maps, depth<=3, wrappers, large values, child handles, commit+reopen every 11 ops) at slab sizes {256,257,300,512,1024,4096}; after every op: VerifyArray/VerifyMap, deep content comparison with shadow values, CheckStorageHealth; non-trivial = at least one inlined child mutated through its handle and one detach/dispose"
+	rep.Rule = "random nested histories (arrays/maps, depth<=3, wrappers, large values, child handles, commit+reopen every 11 ops) at slab sizes {256,257,300,512,1024,4096}; after every op: VerifyArray/VerifyMap, deep content comparison with shadow values, CheckStorageHealth; after every commit: walk over the ledger bytes (registers = exactly what the live roots own); non-trivial = at least one inlined child mutated through its handle and one detach/dispose; " +
+		"plus n/3 histories wp<k> (all n with -mode pooled) in which EVERY map uses the library's default pooled digester with real first-level collisions forced through the hash input provider (families pi1|X|tail, some keys with identical inputs = collisions on every level), 30..90% of the key space in 1..8 families: nested containers under colliding keys mutated through retained handles, Has on every present key, Get on colliding and absent keys; half of them with the oracles only at commit points (ledger walk, reopen, full battery)"
 	tr := NewTrace(out + "/trace.txt")
 	rng := NewRng(seed)
 	sizes := []uint32{256, 257, 300, 512, 1024, 4096}
 	defer atree.VerifSetThreshold(1024)
-	for h := 0; h < n; h++ {
-		hr := rng.Fork(uint64(h))
-		tag := fmt.Sprintf("w%d", h)
-		if !want(tag) {
-			continue
-		}
+
+	run := func(h int, tag string, hr *Rng, pooled bool) {
 		T := sizes[hr.Intn(len(sizes))]
 		atree.VerifSetThreshold(T)
 		base := NewLogBase()
 		opts := WorldOpts{Addr: 1 + uint64(hr.Intn(2)), MaxDepth: 1 + hr.Intn(3), Wrap: hr.Bool(), Maps: true,
 			Detach: prop == "C11" || hr.Chance(30), LargeVals: hr.Chance(60), PopChild: true, SelfSet: hr.Chance(50)}
-		if hr.Chance(35) {
+		sparse := false
+		if pooled {
+			opts.PooledCollide = []int{30, 60, 90}[hr.Intn(3)]
+			opts.KeySpace = []int{8, 20, 60}[hr.Pick(25, 35, 40)]
+			sparse = hr.Bool()
+		} else if hr.Chance(35) {
 			// real pooled digester with first-level digests folded into a small alphabet (top-level maps only)
 			mod := uint64(2 + hr.Intn(12))
 			opts.RootDigester = func() atree.DigesterBuilder { return newCollideL0Builder(mod) }
@@ -42,7 +52,11 @@ func cmdWorld(prop string, seed uint64, n int, steps int, out string) {
 		failed := false
 		w.Fail = func(what, detail string) {
 			if !failed {
-				rep.Violate(h, tag, step, what, fmt.Sprintf("T=%d %s", T, detail))
+				kind := ""
+				if pooled {
+					kind = fmt.Sprintf(" pooled=%d%% keyspace=%d sparse=%v", opts.PooledCollide, opts.KeySpace, sparse)
+				}
+				rep.Violate(h, tag, step, what, fmt.Sprintf("T=%d%s %s", T, kind, detail))
 			}
 			failed = true
 		}
@@ -52,16 +66,28 @@ func cmdWorld(prop string, seed uint64, n int, steps int, out string) {
 					w.Fail("panic in implementation", fmt.Sprint(r))
 				}
 			}()
-			if hr.Bool() {
-				w.NewArrayRoot()
-			} else {
+			if pooled && hr.Chance(70) || !pooled && !hr.Bool() {
 				w.NewMapRoot()
+			} else {
+				w.NewArrayRoot()
 			}
 			for step = 0; step < steps && !failed; step++ {
 				w.Step()
-				w.VerifyAll(true)
+				if !sparse {
+					w.VerifyAll(true)
+				}
 				if step%11 == 10 {
+					if pooled {
+						rep.EventN("pooled_nested_under_colliding_key_at_commit", w.countPooledNested())
+					}
 					w.Commit(1 + hr.Intn(4))
+					w.CheckLedger()
+					if sparse && hr.Chance(40) {
+						w.VerifyAll(true)
+					}
+					if sparse && !hr.Chance(50) {
+						continue // mostly just go on mutating: the next look at the world is the next ledger walk
+					}
 					if hr.Bool() {
 						w.Reopen()
 						w.VerifyAll(true)
@@ -70,6 +96,7 @@ func cmdWorld(prop string, seed uint64, n int, steps int, out string) {
 							w.Retype(1 + hr.Intn(3))
 							w.VerifyAll(true)
 							w.Commit(1 + hr.Intn(4))
+							w.CheckLedger()
 							w.Reopen()
 							w.VerifyAll(true)
 						}
@@ -77,6 +104,9 @@ func cmdWorld(prop string, seed uint64, n int, steps int, out string) {
 				}
 			}
 			if !failed {
+				if sparse {
+					w.VerifyAll(true)
+				}
 				w.DisposeAll()
 				if ids := w.LiveIDs(); len(ids) != 0 {
 					w.Fail("C09: slabs remain after every container was emptied and removed", fmt.Sprint(ids))
@@ -86,6 +116,30 @@ func cmdWorld(prop string, seed uint64, n int, steps int, out string) {
 		rep.Histories++
 		rep.Steps += step
 		rep.Distinct(tag)
+	}
+
+	onlyPooled := mode == "pooled"
+	for h := 0; h < n; h++ {
+		hr := rng.Fork(uint64(h))
+		tag := fmt.Sprintf("w%d", h)
+		if onlyPooled || !want(tag) {
+			continue
+		}
+		run(h, tag, hr, false)
+	}
+	// pooled-collision histories: an independent stream, so that the histories above are what they always were
+	np := n / 3
+	if onlyPooled {
+		np = n
+	}
+	prng := NewRng(seed ^ 0x706f6f6c6564)
+	for k := 0; k < np; k++ {
+		hr := prng.Fork(uint64(k))
+		tag := fmt.Sprintf("wp%d", k)
+		if !want(tag) {
+			continue
+		}
+		run(n+k, tag, hr, true)
 	}
 	tr.Close()
 	rep.Write(out + "/report.json")
